@@ -83,21 +83,27 @@ package timeinterval
 //@   props C15
 //@   requires r != nil && unmarshal != nil
 //@   ensures [valid] result == nil ==> 0 <= r.Begin && r.Begin <= r.End && r.End <= 6
+//@   ensures [accepts-every-valid-range] called("stringableRangeFromString") && ret("stringableRangeFromString") == nil && 0 <= r.Begin && r.Begin <= r.End && r.End <= 6 ==> result == nil
 //@ func (*DayOfMonthRange).UnmarshalYAML
 //@   props C15
 //@   requires r != nil && unmarshal != nil
 //@   ensures [valid] result == nil ==> r.Begin != 0 && r.End != 0 && 0 - 31 <= r.Begin && r.Begin <= 31 && 0 - 31 <= r.End && r.End <= 31
 //@   ensures [sign-rule] result == nil ==> !(r.Begin < 0 && r.End > 0)
 //@   ensures [ordered] result == nil && ((r.Begin > 0) == (r.End > 0)) ==> r.Begin <= r.End
+//@   ensures [accepts-every-valid-range] called("stringableRangeFromString") && ret("stringableRangeFromString") == nil && r.Begin != 0 && r.End != 0 && 0 - 31 <= r.Begin && r.Begin <= 31 && 0 - 31 <= r.End && r.End <= 31 && !(r.Begin < 0 && r.End > 0)
+//@             && (r.Begin < 0 ? 28 + r.Begin : r.Begin) <= (r.End < 0 ? 28 + r.End : r.End) ==> result == nil
+//@   ensures [never-always-empty] result == nil ==> (r.Begin < 0 ? 28 + r.Begin : r.Begin) <= (r.End < 0 ? 28 + r.End : r.End)
 //@ func (*MonthRange).UnmarshalYAML
 //@   props C15
 //@   requires r != nil && unmarshal != nil
 //@   ensures [valid] result == nil ==> r.Begin <= r.End
+//@   ensures [accepts-every-valid-range] called("stringableRangeFromString") && ret("stringableRangeFromString") == nil && r.Begin <= r.End ==> result == nil
 //@   nosafe
 //@ func (*YearRange).UnmarshalYAML
 //@   props C15
 //@   requires r != nil && unmarshal != nil
 //@   ensures [valid] result == nil ==> r.Begin <= r.End
+//@   ensures [accepts-every-valid-range] called("stringableRangeFromString") && ret("stringableRangeFromString") == nil && r.Begin <= r.End ==> result == nil
 //@ func (*TimeRange).UnmarshalYAML
 //@   props C15
 //@   requires tr != nil && unmarshal != nil
